@@ -210,6 +210,14 @@ func chunks(r *hx.Rand, n, bs int) []string {
 func postOps(r *hx.Rand, alg string, total *int) []string {
 	bs := bsOf(alg)
 	var ops []string
+	if alg[0] == 'k' && r.Chance(1, 3) {
+		// a restored sponge may be squeezing: Write/Sum then raise the documented panic and end the history, so
+		// sometimes Read more output and / or Reset first (Reset must not panic and must restore absorbing)
+		if r.Bool() {
+			ops = append(ops, fmt.Sprintf("rd%d", r.PickInt(0, 1, bs-1, bs, bs+1, 40)))
+		}
+		ops = append(ops, "r")
+	}
 	if r.Bool() {
 		ops = append(ops, "s")
 	}
